@@ -21,6 +21,7 @@ mod rec;
 mod c02;
 mod c09;
 mod c16b;
+mod c16c;
 mod c12;
 mod c19;
 mod c14;
@@ -46,7 +47,7 @@ fn run_one(pid: &str, input: &Value) -> Option<Value> {
         "C11" => c11::run(&input),
         "C04" => c04::run(&input),
         "C05" => c05::run(&input),
-        "C16" => if input.get("needle").is_some() { c16b::run(&input) } else { c16::run(&input) },
+        "C16" => if input.get("kind").is_some() { c16c::run(&input) } else if input.get("needle").is_some() { c16b::run(&input) } else { c16::run(&input) },
         "C01" | "C08" => c01::run(&input),
         "C03" | "C13" => c03::run(&input),
         "C02" => c02::run(&input),
@@ -80,7 +81,7 @@ fn gen(pid: &str, r: &mut rng::Rng) -> Option<Value> {
         "C11" => Some(c11::gen(r)),
         "C04" => Some(c04::gen(r)),
         "C05" => Some(c05::gen(r)),
-        "C16" => Some(if r.chance(1, 2) { c16::gen(r) } else { c16b::gen(r) }),
+        "C16" => Some(match r.below(3) { 0 => c16::gen(r), 1 => c16b::gen(r), _ => c16c::gen(r) }),
         "C01" | "C08" => Some(c01::gen(r)),
         "C03" | "C13" => Some(c03::gen(r)),
         "C02" => Some(c02::gen(r)),
